@@ -167,6 +167,7 @@ def main():
     files = None
     jobs = 8
     out = "/tmp/mutation_survey.json"
+    select = None
     for a in sys.argv[1:]:
         if a.startswith("--files="):
             files = a.split("=", 1)[1].split(",")
@@ -176,12 +177,23 @@ def main():
             root = a.split("=", 1)[1]
         elif a.startswith("--out="):
             out = a.split("=", 1)[1]
+        elif a.startswith("--select="):
+            # re-judge only the mutants named by the SURVIVOR / ERRONLY lines of an earlier log
+            import re
+
+            select = set()
+            for line in open(a.split("=", 1)[1]):
+                m = re.match(r"(?:SURVIVOR|ERRONLY) (\S+):(\d+) \[(\w+)\] (.*?)(?: -> \[.*)?$", line.rstrip("\n"))
+                if m:
+                    select.add((m.group(1), int(m.group(2)), m.group(3), m.group(4).strip()))
     srcdir = os.path.join(root, "src", "gbigsmiles")
     files = files or sorted(f for f in os.listdir(srcdir) if f.endswith(".py") and f not in ("__init__.py", "__main__.py", "_version.py", "chem_resource.py"))
     tasks = []
     for f in files:
         text = open(os.path.join(srcdir, f)).read()
         for lineno, kind, snippet, new in mutants_of(text):
+            if select is not None and (f, lineno, kind, snippet.strip()) not in select:
+                continue
             tasks.append((root, f, lineno, kind, snippet, new))
     print(f"{len(tasks)} mutants in {len(files)} file(s)", flush=True)
     results = []
